@@ -38,6 +38,8 @@ pub mod verif {
         pub stdout_drained: usize,
         pub stdout_waker: Option<Waker>,
         pub stdout_closed: bool,
+        pub drain_waker: Option<Waker>,
+        pub drain_stop: bool,
         pub chan_ops: usize,
     }
 
@@ -103,6 +105,38 @@ pub mod verif {
             let mut e = e.borrow_mut();
             e.stdout_drained = e.stdout.len();
             e.stdout_waker.take()
+        });
+        if let Some(w) = w {
+            w.wake();
+        }
+    }
+    /// Future of the modelled client: resolves to `true` as soon as undrained output exists,
+    /// to `false` once `stdout_drain_stop` was called. Blocking (no spinning).
+    pub fn stdout_wait_data() -> impl Future<Output = bool> {
+        struct W;
+        impl Future for W {
+            type Output = bool;
+            fn poll(self: Pin<&mut Self>, cx: &mut Context<'_>) -> Poll<bool> {
+                ENV.with(|e| {
+                    let mut e = e.borrow_mut();
+                    if e.stdout.len() > e.stdout_drained {
+                        Poll::Ready(true)
+                    } else if e.drain_stop {
+                        Poll::Ready(false)
+                    } else {
+                        e.drain_waker = Some(cx.waker().clone());
+                        Poll::Pending
+                    }
+                })
+            }
+        }
+        W
+    }
+    pub fn stdout_drain_stop() {
+        let w = ENV.with(|e| {
+            let mut e = e.borrow_mut();
+            e.drain_stop = true;
+            e.drain_waker.take()
         });
         if let Some(w) = w {
             w.wake();
@@ -409,6 +443,9 @@ pub mod io {
                 e.stdout.extend_from_slice(buf);
                 e.stdout_writes += 1;
                 this.yielded = false;
+                if let Some(w) = e.drain_waker.take() {
+                    w.wake();
+                }
                 Poll::Ready(Ok(buf.len()))
             })
         }
